@@ -169,8 +169,10 @@ impl<T: VNode> VNode for Box<T> {
 pub assume_specification [Position::bytes] (p: Position) -> (r: usize) ensures r == pos_bytes(p);
 
 pub trait GetLeadingTrivia {
+    spec fn leads_with_comment(&self) -> bool;   // a comment stands in the leading trivia of the node's first token (prelude/lines.rs)
     fn leading_trivia(&self) -> Vec<Token>;
-    fn has_leading_comments(&self, search: CommentSearch) -> bool;
+    fn has_leading_comments(&self, search: CommentSearch) -> (r: bool)
+        ensures self.leads_with_comment() && search is All ==> r;
     fn leading_comments(&self) -> Vec<Token>;
 }
 pub trait GetTrailingTrivia {
@@ -182,8 +184,9 @@ pub trait GetTrailingTrivia {
     fn trailing_comments(&self) -> Vec<Token>;
 }
 impl GetLeadingTrivia for Expression {
+    open spec fn leads_with_comment(&self) -> bool { elc(*self) }
     #[verifier::external_body] fn leading_trivia(&self) -> Vec<Token> { unimplemented!() }
-    #[verifier::external_body] fn has_leading_comments(&self, search: CommentSearch) -> bool { unimplemented!() }
+    #[verifier::external_body] fn has_leading_comments(&self, search: CommentSearch) -> (r: bool) { unimplemented!() }
     #[verifier::external_body] fn leading_comments(&self) -> Vec<Token> { unimplemented!() }
 }
 impl GetTrailingTrivia for Expression {
@@ -193,8 +196,9 @@ impl GetTrailingTrivia for Expression {
     #[verifier::external_body] fn trailing_comments(&self) -> Vec<Token> { unimplemented!() }
 }
 impl GetLeadingTrivia for BinOp {
+    open spec fn leads_with_comment(&self) -> bool { other_lc(*self) }
     #[verifier::external_body] fn leading_trivia(&self) -> Vec<Token> { unimplemented!() }
-    #[verifier::external_body] fn has_leading_comments(&self, search: CommentSearch) -> bool { unimplemented!() }
+    #[verifier::external_body] fn has_leading_comments(&self, search: CommentSearch) -> (r: bool) { unimplemented!() }
     #[verifier::external_body] fn leading_comments(&self) -> Vec<Token> { unimplemented!() }
 }
 impl GetTrailingTrivia for BinOp {
@@ -204,8 +208,9 @@ impl GetTrailingTrivia for BinOp {
     #[verifier::external_body] fn trailing_comments(&self) -> Vec<Token> { unimplemented!() }
 }
 impl GetLeadingTrivia for TokenReference {
+    open spec fn leads_with_comment(&self) -> bool { tok_lc(*self) }
     #[verifier::external_body] fn leading_trivia(&self) -> Vec<Token> { unimplemented!() }
-    #[verifier::external_body] fn has_leading_comments(&self, search: CommentSearch) -> bool { unimplemented!() }
+    #[verifier::external_body] fn has_leading_comments(&self, search: CommentSearch) -> (r: bool) { unimplemented!() }
     #[verifier::external_body] fn leading_comments(&self) -> Vec<Token> { unimplemented!() }
 }
 impl GetTrailingTrivia for TokenReference {
